@@ -371,6 +371,15 @@ func init() {
 	cmds["live-c04"] = func(a []string) {
 		l := startLive(liveOpts{traceTo: a[0]})
 		phone := []byte{0x01, 0x0a, 0x0d, 0x00, 0x20, 0x09} // the phone field itself holds LF, CR, NUL, space, TAB (BCD digits 010a0d002009)
+		// first a few connections that end in the middle of a frame (whatever a connection leaves behind is its own)
+		for k := 0; k < 3; k++ {
+			d := l.dial([]byte{0x01, 0x0a, 0x0d, 0x00, 0x20, byte(0x10 + k)}, 0)
+			f := d.frame(0x0200, make([]byte, 28))
+			d.send(append(d.frame(0x0002, nil), f[:len(f)/2+k]...))
+			time.Sleep(3 * time.Millisecond)
+			d.close(k == 1)
+			time.Sleep(5 * time.Millisecond)
+		}
 		t := l.dial(phone, 0)
 		t.serial = 0x0a0c // serials 0x0a0d.. : CR / LF inside the header as well
 		bodies := [][]byte{
@@ -382,6 +391,7 @@ func init() {
 		missed := false
 		round := func(cut int) {
 			var stream []byte
+			end0200 := 0
 			for i, b := range bodies {
 				body := b
 				if i == 1 {
@@ -389,12 +399,21 @@ func init() {
 					body = append(body, 0x0a)[:28] // a 28-byte location block beginning with LF
 				}
 				stream = append(stream, t.frame([]int{0x0900, 0x0200, 0x0900}[i], body)...)
+				if i == 1 {
+					end0200 = len(stream)
+				}
 			}
 			if cut <= 0 || cut >= len(stream) {
 				t.send(stream)
 			} else {
 				t.send(stream[:cut])
-				time.Sleep(1500 * time.Microsecond)
+				if cut >= end0200 && !missed {
+					// the answered frame is complete in what has been sent: its reply comes without the rest of the stream
+					ok := t.waitRecv(expect+1, 3*time.Second)
+					l.rec.log(t.idx, "D", "assert", "ok", ok, "what", "CompleteFrameWithheldUntilMoreDataArrived", "cut", cut)
+				} else {
+					time.Sleep(1500 * time.Microsecond)
+				}
 				t.send(stream[cut:])
 			}
 			expect++ // only the 0x0200 is answered (0x0900 is not a supported id)
